@@ -11,6 +11,7 @@ package main
 // independent of the model (the model prints its own verdict too, so both are compared).
 
 import (
+	"crypto/tls"
 	"encoding/json"
 	"fmt"
 	"io/fs"
@@ -75,7 +76,13 @@ type c17Case struct {
 	ForceQuery bool   `json:"force_query,omitempty"` // the request target ends in a bare `?` (URL.ForceQuery; only meaningful with an empty query)
 	Fragment   a2bstr `json:"fragment,omitempty"`    // URL.Fragment (a server never parses one out of a request target; an earlier middleware may have set it)
 	Host       string `json:"host,omitempty"`        // absolute-form request target: URL.Scheme = "http", URL.Host = this
-	Pre        string `json:"pre,omitempty"`         // static route: "" | add | remove — that slash middleware (Ctor, Skip, Code) under e.Pre in front of the route
+	// round 7: the request's protocol version and Host header; further requests through the same application
+	Proto   string    `json:"proto,omitempty"`    // "" HTTP/1.1 | 1.0 | 0.9 | 2.0
+	NoHost  bool      `json:"no_host,omitempty"`  // no Host header
+	ReqHost string    `json:"req_host,omitempty"` // Host header ("" = example.com)
+	TLS     bool      `json:"tls,omitempty"`      // Request.TLS != nil
+	More    []c17Step `json:"more,omitempty"`     // requests served after the first one, through the same Echo and middleware instances
+	Pre     string    `json:"pre,omitempty"`      // static route: "" | add | remove — that slash middleware (Ctor, Skip, Code) under e.Pre in front of the route
 }
 
 // ---------- the directory trees served by the static cases ----------
@@ -274,6 +281,50 @@ func c17Ordinary(p string) bool {
 
 const c17ReqURI = "/orig-request-uri"
 
+// c17Step: one request.  The first request of a case is described by the case's own fields,
+// further requests through the SAME Echo (same middleware instances) by `More`.
+type c17Step struct {
+	Method     string `json:"method,omitempty"`
+	Path       a2bstr `json:"path"`
+	RawPath    a2bstr `json:"raw_path,omitempty"`
+	Query      a2bstr `json:"query,omitempty"`
+	ForceQuery bool   `json:"force_query,omitempty"`
+	Fragment   a2bstr `json:"fragment,omitempty"`
+	Host       string `json:"host,omitempty"`
+	Proto      string `json:"proto,omitempty"`    // "" HTTP/1.1 | 1.0 | 0.9 | 2.0 (Request.Proto / ProtoMajor / ProtoMinor)
+	NoHost     bool   `json:"no_host,omitempty"`  // no Host header (legal in HTTP/1.0): Request.Host == ""
+	ReqHost    string `json:"req_host,omitempty"` // Host header ("" = example.com)
+	TLS        bool   `json:"tls,omitempty"`      // the request came over TLS (Request.TLS != nil)
+}
+
+func (c *c17Case) step0() c17Step {
+	return c17Step{Method: c.Method, Path: c.Path, RawPath: c.RawPath, Query: c.Query, ForceQuery: c.ForceQuery,
+		Fragment: c.Fragment, Host: c.Host, Proto: c.Proto, NoHost: c.NoHost, ReqHost: c.ReqHost, TLS: c.TLS}
+}
+
+func (c *c17Case) setStep0(st c17Step) {
+	c.Method, c.Path, c.RawPath, c.Query, c.ForceQuery = st.Method, st.Path, st.RawPath, st.Query, st.ForceQuery
+	c.Fragment, c.Host, c.Proto, c.NoHost, c.ReqHost, c.TLS = st.Fragment, st.Host, st.Proto, st.NoHost, st.ReqHost, st.TLS
+}
+
+func c17Proto(p string) (string, int, int) {
+	switch p {
+	case "1.0":
+		return "HTTP/1.0", 1, 0
+	case "0.9":
+		return "HTTP/0.9", 0, 9
+	case "2.0":
+		return "HTTP/2.0", 2, 0
+	}
+	return "HTTP/1.1", 1, 1
+}
+
+type c17StepResult struct {
+	ops, obs, oracle string
+	tags             []string
+	nontrivial       bool
+}
+
 func c17Run(ci any) (res Result) {
 	c := ci.(*c17Case)
 	defer func() {
@@ -282,76 +333,60 @@ func c17Run(ci any) (res Result) {
 			res.Oracle = fmt.Sprintf("panic: %v", p)
 		}
 	}()
-	path, raw, qs := string(c.Path), string(c.RawPath), string(c.Query)
 	e := echo.New()
 	e.HideBanner = true
-	method := c.Method
-	if method == "" {
-		method = http.MethodGet
-	}
-	req := httptest.NewRequest(method, "/", nil)
-	req.URL.Path, req.URL.RawPath, req.URL.RawQuery = path, raw, qs
-	req.URL.ForceQuery = c.ForceQuery
-	req.URL.Fragment = string(c.Fragment)
-	if c.Host != "" {
-		req.URL.Scheme, req.URL.Host = "http", c.Host
-	}
-	urlToks := wJoin(wStr(path), wStr(raw), wStr(qs), wBool(c.ForceQuery), wStr(string(c.Fragment)), wStr(c.Host))
-	req.RequestURI = c17ReqURI
-	rec := httptest.NewRecorder()
+	caseTags := []string{"comp:" + c.Comp}
 
-	tags := []string{"comp:" + c.Comp, "method:" + method}
-	var ops string
+	// ---- the application: built once, all requests of the case go through it
+	// (what the hooks inside the application record for the request being served)
 	nextRan, nextPath, nextURI := false, "", ""
 	routed, param := false, ""
-
-	effCode, skipped := c.Code, false
+	var slashToks func(path string) (string, int, bool) // slash middleware of the case: model tokens, effective code, skipped
+	route, disable, ti := "", false, 0
 	switch c.Comp {
 	case "add", "remove":
-		mw, toks, ec, sk := c17Slash(c.Comp, c, path)
-		effCode, skipped = ec, sk
+		mw, _, _, _ := c17Slash(c.Comp, c, "")
+		slashToks = func(path string) (string, int, bool) {
+			_, toks, ec, sk := c17Slash(c.Comp, c, path)
+			return toks, ec, sk
+		}
 		e.Pre(mw, func(next echo.HandlerFunc) echo.HandlerFunc {
 			return func(ctx echo.Context) error { // stands for "router + handler"
 				nextRan, nextPath, nextURI = true, ctx.Request().URL.Path, ctx.Request().RequestURI
 				return ctx.NoContent(http.StatusOK)
 			}
 		})
-		ops = wJoin("M", toks, urlToks, wStr(c17ReqURI))
-		if effCode == 0 {
-			tags = append(tags, "forward-mode")
-		}
 		if c.Ctor == "plain" {
-			tags = append(tags, "ctor:plain("+c.Comp+")")
+			caseTags = append(caseTags, "ctor:plain("+c.Comp+")")
 		}
 		if c.Skip != 0 && c.Ctor != "plain" {
-			tags = append(tags, fmt.Sprintf("skipper:%d", c.Skip))
-		}
-		if skipped {
-			tags = append(tags, "skipped")
+			caseTags = append(caseTags, fmt.Sprintf("skipper:%d", c.Skip))
 		}
 	case "static", "gstatic":
 		root, err := c17Roots()
 		if err != nil {
 			return Result{Oracle: "harness: cannot create the directory tree: " + err.Error()}
 		}
-		ti := c.Tree % len(c17Trees)
+		ti = c.Tree % len(c17Trees)
 		if ti < 0 {
 			ti = 0
 		}
 		dir := filepath.Join(root, fmt.Sprintf("t%d", ti))
-		route := c.Prefix + "*"
+		route = c.Prefix + "*"
 		if c.Comp == "gstatic" {
 			route = c.Group + route
 		}
 		if !strings.HasPrefix(route, "/") { // the router registers "*" as "/*"
 			route = "/" + route
 		}
-		preToks := ""
 		if c.Pre == "add" || c.Pre == "remove" {
-			var mw echo.MiddlewareFunc
-			mw, preToks, _, _ = c17Slash(c.Pre, c, path)
+			mw, _, _, _ := c17Slash(c.Pre, c, "")
+			slashToks = func(path string) (string, int, bool) {
+				_, toks, ec, sk := c17Slash(c.Pre, c, path)
+				return toks, ec, sk
+			}
 			e.Pre(mw)
-			tags = append(tags, "pre:"+c.Pre)
+			caseTags = append(caseTags, "pre:"+c.Pre)
 		}
 		e.Use(func(next echo.HandlerFunc) echo.HandlerFunc {
 			return func(ctx echo.Context) error {
@@ -362,7 +397,6 @@ func c17Run(ci any) (res Result) {
 				return next(ctx)
 			}
 		})
-		disable := false
 		var g *echo.Group
 		if c.Comp == "gstatic" {
 			g = e.Group(c.Group)
@@ -416,190 +450,299 @@ func c17Run(ci any) (res Result) {
 		default:
 			return Result{Oracle: "harness: unknown variant " + c.Variant}
 		}
-		tags = append(tags, "variant:"+c.Variant)
+		caseTags = append(caseTags, "variant:"+c.Variant)
 		if strings.Contains(route, ":") {
-			tags = append(tags, "mount:below-path-parameter")
+			caseTags = append(caseTags, "mount:below-path-parameter")
 		} else if route != "/*" {
-			tags = append(tags, "mount:below-literal-prefix")
+			caseTags = append(caseTags, "mount:below-literal-prefix")
 		} else {
-			tags = append(tags, "mount:root")
-		}
-		e.ServeHTTP(rec, req)
-		t := c17Trees[ti]
-		switch {
-		case preToks != "" && method == http.MethodGet:
-			ops = wJoin("P", preToks, urlToks, wStr(c17ReqURI), wBool(disable), wStrs(t.dirs), wStrs(t.files), wBool(routed), wStr(param))
-		case preToks != "":
-			tags = append(tags, "static:pre-non-GET(oracle only)")
-		case routed:
-			ops = wJoin("S", wBool(disable), wStrs(t.dirs), wStrs(t.files), wStr(param), wStr(path))
-		default:
-			tags = append(tags, "static:not-routed")
+			caseTags = append(caseTags, "mount:root")
 		}
 	default:
 		return Result{Oracle: "harness: unknown component " + c.Comp}
 	}
-	if c.Comp == "add" || c.Comp == "remove" {
-		e.ServeHTTP(rec, req)
-	}
 
-	// ---- observation in the model's format
-	status := rec.Code
-	locs := rec.Header()[echo.HeaderLocation]
-	loc := ""
-	if len(locs) > 0 {
-		loc = locs[0]
-	}
-	_, scheme, authority, pathAbs := c17Browser(loc)
-	var obs string
-	switch {
-	case status >= 300 && status < 400:
-		obs = wJoin("R", wInt(status), wStr(loc), wBool(pathAbs), wBool(!scheme && !authority))
-		tags = append(tags, "redirect", "redirect:"+c.Comp)
-		if (c.Comp == "static" || c.Comp == "gstatic") && strings.Contains(c.Group+c.Prefix, ":") {
-			tags = append(tags, "redirect:mount-below-path-parameter")
+	// ---- one request through the application
+	serve := func(st c17Step) (sr c17StepResult) {
+		defer func() {
+			if p := recover(); p != nil {
+				sr.obs = "panic"
+				sr.oracle = fmt.Sprintf("panic: %v", p)
+			}
+		}()
+		path, raw, qs := string(st.Path), string(st.RawPath), string(st.Query)
+		method := st.Method
+		if method == "" {
+			method = http.MethodGet
 		}
-		if c.Pre != "" {
-			tags = append(tags, "redirect:with-pre-middleware")
+		req := httptest.NewRequest(method, "/", nil)
+		req.URL.Path, req.URL.RawPath, req.URL.RawQuery = path, raw, qs
+		req.URL.ForceQuery = st.ForceQuery
+		req.URL.Fragment = string(st.Fragment)
+		if st.Host != "" {
+			req.URL.Scheme, req.URL.Host = "http", st.Host
 		}
-		if method != http.MethodGet {
-			tags = append(tags, "redirect:non-GET")
-		}
-	case nextRan && status == http.StatusOK:
-		obs = wJoin("N", wStr(nextPath), wStr(nextURI))
-		tags = append(tags, "next")
-	case status == http.StatusOK:
-		obs = "F"
-		tags = append(tags, "file-served")
-	case status == http.StatusNotFound:
-		obs = "404"
-		tags = append(tags, "404")
-	case status == http.StatusInternalServerError:
-		obs = "E"
-		tags = append(tags, "error-500")
-	default:
-		obs = fmt.Sprintf("X%d", status)
-	}
-
-	// ---- model-free oracle: the property itself
-	oracle := ""
-	fail := func(f string, a ...any) {
-		if oracle == "" {
-			oracle = fmt.Sprintf(f, a...)
-		}
-	}
-	if len(locs) > 1 {
-		fail("%d Location headers", len(locs))
-	}
-	isRedirect := status >= 300 && status < 400
-	if isRedirect || len(locs) > 0 {
-		view, _, _, _ := c17Browser(loc)
+		req.Proto, req.ProtoMajor, req.ProtoMinor = c17Proto(st.Proto)
 		switch {
-		case scheme:
-			fail("Location %q is read by a browser as %q: it has a scheme", loc, view)
-		case authority:
-			fail("Location %q is read by a browser as %q: it starts an authority (another host)", loc, view)
-		case strings.HasPrefix(path, "/") && !pathAbs:
-			fail("Location %q is read by a browser as %q: not a path-absolute reference", loc, view)
+		case st.NoHost:
+			req.Host = ""
+		case st.ReqHost != "":
+			req.Host = st.ReqHost
 		}
-	}
-	if c.Comp == "add" || c.Comp == "remove" {
-		// second clause: ordinary paths get exactly path±"/" with the query preserved
-		q := ""
-		if qs != "" {
-			q = "?" + qs
+		if st.TLS {
+			req.TLS = &tls.ConnectionState{}
 		}
-		validCode := effCode >= 300 && effCode <= 308
-		bare := c.ForceQuery && qs == ""
-		want, change := "", false
-		if c.Comp == "add" && c17Ordinary(path) && !strings.HasSuffix(path, "/") {
-			want, change = path+"/", true
-		}
-		if c.Comp == "remove" && strings.HasSuffix(path, "/") && c17Ordinary(strings.TrimSuffix(path, "/")) {
-			want, change = strings.TrimSuffix(path, "/"), true
-		}
-		if skipped {
-			// the Skipper took the request out of the middleware's hands: no target to speak of
-			// (what must happen — nothing — is part of the comparison with the model)
-		} else if change {
-			tags = append(tags, "ordinary-change")
+		urlToks := wJoin(wStr(path), wStr(raw), wStr(qs), wBool(st.ForceQuery), wStr(string(st.Fragment)), wStr(st.Host),
+			wInt(req.ProtoMajor), wInt(req.ProtoMinor), wStr(req.Host), wBool(st.TLS))
+		req.RequestURI = c17ReqURI
+		rec := httptest.NewRecorder()
+		nextRan, nextPath, nextURI = false, "", ""
+		routed, param = false, ""
+		tags := []string{"method:" + method}
+		var ops string
+		effCode, skipped := c.Code, false
+
+		e.ServeHTTP(rec, req)
+
+		switch c.Comp {
+		case "add", "remove":
+			toks, ec, sk := slashToks(path)
+			effCode, skipped = ec, sk
+			ops = wJoin("M", toks, urlToks, wStr(c17ReqURI))
+			if effCode == 0 {
+				tags = append(tags, "forward-mode")
+			}
+			if skipped {
+				tags = append(tags, "skipped")
+			}
+		case "static", "gstatic":
+			t := c17Trees[ti]
 			switch {
-			case validCode:
-				// (the property fixes the target, not which 3xx code carries it; the configured
-				// code is part of the comparison with the model)
-				// (an empty query that was present - a bare `?` - may be kept or dropped: both
-				// preserve the query string; which one is part of the comparison with the model)
-				if !isRedirect || (loc != want+q && !(bare && loc == want+"?")) {
-					fail("ordinary path %q: expected a redirect (%d) with Location %q, got status %d Location %q", path, effCode, want+q, status, loc)
-				}
-			case c.Code == 0:
-				if !nextRan || nextPath != want || (nextURI != want+q && !(bare && nextURI == want+"?")) {
-					fail("ordinary path %q (forward mode): expected the handler to see path %q uri %q, got ran=%v %q %q", path, want, want+q, nextRan, nextPath, nextURI)
-				}
-			}
-		} else if c17Ordinary(path) || path == "/" {
-			tags = append(tags, "ordinary-keep")
-			if isRedirect || !nextRan || nextPath != path || nextURI != c17ReqURI {
-				fail("ordinary path %q needs no change but status=%d next=%v path=%q uri=%q", path, status, nextRan, nextPath, nextURI)
+			case slashToks != nil && method == http.MethodGet:
+				toks, _, _ := slashToks(path)
+				ops = wJoin("P", toks, urlToks, wStr(c17ReqURI), wBool(disable), wStrs(t.dirs), wStrs(t.files), wBool(routed), wStr(param))
+			case slashToks != nil:
+				tags = append(tags, "static:pre-non-GET(oracle only)")
+			case routed:
+				ops = wJoin("S", wBool(disable), wStrs(t.dirs), wStrs(t.files), wStr(param), wStr(path))
+			default:
+				tags = append(tags, "static:not-routed")
 			}
 		}
+
+		// ---- observation in the model's format
+		status := rec.Code
+		locs := rec.Header()[echo.HeaderLocation]
+		loc := ""
+		if len(locs) > 0 {
+			loc = locs[0]
+		}
+		_, scheme, authority, pathAbs := c17Browser(loc)
+		var obs string
+		switch {
+		case status >= 300 && status < 400:
+			obs = wJoin("R", wInt(status), wStr(loc), wBool(pathAbs), wBool(!scheme && !authority))
+			tags = append(tags, "redirect", "redirect:"+c.Comp)
+			if (c.Comp == "static" || c.Comp == "gstatic") && strings.Contains(c.Group+c.Prefix, ":") {
+				tags = append(tags, "redirect:mount-below-path-parameter")
+			}
+			if c.Pre != "" {
+				tags = append(tags, "redirect:with-pre-middleware")
+			}
+			if method != http.MethodGet {
+				tags = append(tags, "redirect:non-GET")
+			}
+		case nextRan && status == http.StatusOK:
+			obs = wJoin("N", wStr(nextPath), wStr(nextURI))
+			tags = append(tags, "next")
+		case status == http.StatusOK:
+			obs = "F"
+			tags = append(tags, "file-served")
+		case status == http.StatusNotFound:
+			obs = "404"
+			tags = append(tags, "404")
+		case status == http.StatusInternalServerError:
+			obs = "E"
+			tags = append(tags, "error-500")
+		default:
+			obs = fmt.Sprintf("X%d", status)
+		}
+
+		// ---- model-free oracle: the property itself
+		oracle := ""
+		fail := func(f string, a ...any) {
+			if oracle == "" {
+				oracle = fmt.Sprintf(f, a...)
+			}
+		}
+		if len(locs) > 1 {
+			fail("%d Location headers", len(locs))
+		}
+		isRedirect := status >= 300 && status < 400
+		if isRedirect || len(locs) > 0 {
+			view, _, _, _ := c17Browser(loc)
+			switch {
+			case scheme:
+				fail("Location %q is read by a browser as %q: it has a scheme", loc, view)
+			case authority:
+				fail("Location %q is read by a browser as %q: it starts an authority (another host)", loc, view)
+			case strings.HasPrefix(path, "/") && !pathAbs:
+				fail("Location %q is read by a browser as %q: not a path-absolute reference", loc, view)
+			}
+		}
+		if c.Comp == "add" || c.Comp == "remove" {
+			// second clause: ordinary paths get exactly path±"/" with the query preserved
+			q := ""
+			if qs != "" {
+				q = "?" + qs
+			}
+			validCode := effCode >= 300 && effCode <= 308
+			bare := st.ForceQuery && qs == ""
+			want, change := "", false
+			if c.Comp == "add" && c17Ordinary(path) && !strings.HasSuffix(path, "/") {
+				want, change = path+"/", true
+			}
+			if c.Comp == "remove" && strings.HasSuffix(path, "/") && c17Ordinary(strings.TrimSuffix(path, "/")) {
+				want, change = strings.TrimSuffix(path, "/"), true
+			}
+			if skipped {
+				// the Skipper took the request out of the middleware's hands: no target to speak of
+				// (what must happen — nothing — is part of the comparison with the model)
+			} else if change {
+				tags = append(tags, "ordinary-change")
+				switch {
+				case validCode:
+					// (the property fixes the target, not which 3xx code carries it; the configured
+					// code is part of the comparison with the model)
+					// (an empty query that was present - a bare `?` - may be kept or dropped: both
+					// preserve the query string; which one is part of the comparison with the model)
+					if !isRedirect || (loc != want+q && !(bare && loc == want+"?")) {
+						fail("ordinary path %q: expected a redirect (%d) with Location %q, got status %d Location %q", path, effCode, want+q, status, loc)
+					}
+				case c.Code == 0:
+					if !nextRan || nextPath != want || (nextURI != want+q && !(bare && nextURI == want+"?")) {
+						fail("ordinary path %q (forward mode): expected the handler to see path %q uri %q, got ran=%v %q %q", path, want, want+q, nextRan, nextPath, nextURI)
+					}
+				}
+			} else if c17Ordinary(path) || path == "/" {
+				tags = append(tags, "ordinary-keep")
+				if isRedirect || !nextRan || nextPath != path || nextURI != c17ReqURI {
+					fail("ordinary path %q needs no change but status=%d next=%v path=%q uri=%q", path, status, nextRan, nextPath, nextURI)
+				}
+			}
+		}
+
+		// ---- evidence tags
+		lead := 0
+		for lead < len(path) && (path[lead] == '/' || path[lead] == '\\' || path[lead] <= 0x20) {
+			lead++
+		}
+		nontrivial := false
+		if isRedirect {
+			run := path[:lead]
+			if strings.ContainsAny(run, "\t\r\n") {
+				tags = append(tags, "lead:tab-cr-lf")
+			}
+			if strings.Contains(run, "\\") {
+				tags = append(tags, "lead:backslash")
+			}
+			if strings.ContainsAny(strings.ToLower(raw), "%") && (strings.Contains(strings.ToLower(raw), "%2f") || strings.Contains(strings.ToLower(raw), "%5c")) {
+				tags = append(tags, "lead:encoded-slash")
+			}
+			if qs != "" {
+				tags = append(tags, "with-query")
+			}
+			naive := path
+			if c.Comp == "remove" {
+				naive = strings.TrimSuffix(path, "/")
+			} else {
+				naive += "/"
+			}
+			if qs != "" && (c.Comp == "add" || c.Comp == "remove") {
+				naive += "?" + qs
+			}
+			if loc != naive {
+				tags = append(tags, "sanitiser-rewrote")
+			}
+			_, _, nauth, _ := c17Browser(naive)
+			if nauth {
+				tags = append(tags, "naive-target-would-leave-host")
+				nontrivial = true
+			}
+		}
+		if !strings.HasPrefix(path, "/") {
+			tags = append(tags, "path-not-rooted")
+		}
+		if st.ForceQuery && qs == "" {
+			tags = append(tags, "url:bare-question-mark")
+			if isRedirect {
+				tags = append(tags, "redirect:bare-question-mark")
+			}
+		}
+		if st.Fragment != "" {
+			tags = append(tags, "url:fragment")
+		}
+		if st.Host != "" {
+			tags = append(tags, "url:absolute-form(host)")
+		}
+		if raw != "" && raw == path {
+			tags = append(tags, "url:RawPath==Path")
+		}
+		if st.Proto != "" {
+			tags = append(tags, "proto:HTTP/"+st.Proto)
+			if isRedirect {
+				tags = append(tags, "redirect:proto-HTTP/"+st.Proto)
+			}
+		}
+		if st.NoHost {
+			tags = append(tags, "request:no-Host-header")
+		}
+		if st.TLS {
+			tags = append(tags, "request:TLS")
+		}
+		if qs != "" {
+			if _, err := url.ParseQuery(qs); err != nil {
+				tags = append(tags, "query:does-not-parse")
+				if isRedirect {
+					tags = append(tags, "redirect:query-does-not-parse")
+				}
+			}
+		}
+		return c17StepResult{ops, obs, oracle, tags, nontrivial}
 	}
 
-	// ---- evidence tags
-	lead := 0
-	for lead < len(path) && (path[lead] == '/' || path[lead] == '\\' || path[lead] <= 0x20) {
-		lead++
-	}
-	nontrivial := false
-	if isRedirect {
-		run := path[:lead]
-		if strings.ContainsAny(run, "\t\r\n") {
-			tags = append(tags, "lead:tab-cr-lf")
+	steps := append([]c17Step{c.step0()}, c.More...)
+	var lines, obss []string
+	tags := caseTags
+	oracle, nontrivial := "", false
+	seen := map[string]bool{} // path -> a redirect was produced for it earlier in this case
+	for i, st := range steps {
+		sr := serve(st)
+		if sr.ops != "" {
+			lines = append(lines, sr.ops)
+			obss = append(obss, sr.obs)
 		}
-		if strings.Contains(run, "\\") {
-			tags = append(tags, "lead:backslash")
+		tags = append(tags, sr.tags...)
+		nontrivial = nontrivial || sr.nontrivial
+		if sr.oracle != "" && oracle == "" {
+			oracle = sr.oracle
+			if len(steps) > 1 {
+				oracle = fmt.Sprintf("request %d of %d through one instance: %s", i+1, len(steps), sr.oracle)
+			}
 		}
-		if strings.ContainsAny(strings.ToLower(raw), "%") && (strings.Contains(strings.ToLower(raw), "%2f") || strings.Contains(strings.ToLower(raw), "%5c")) {
-			tags = append(tags, "lead:encoded-slash")
-		}
-		if qs != "" {
-			tags = append(tags, "with-query")
-		}
-		naive := path
-		if c.Comp == "remove" {
-			naive = strings.TrimSuffix(path, "/")
-		} else {
-			naive += "/"
-		}
-		if qs != "" && (c.Comp == "add" || c.Comp == "remove") {
-			naive += "?" + qs
-		}
-		if loc != naive {
-			tags = append(tags, "sanitiser-rewrote")
-		}
-		_, _, nauth, _ := c17Browser(naive)
-		if nauth {
-			tags = append(tags, "naive-target-would-leave-host")
-			nontrivial = true
+		if strings.HasPrefix(sr.obs, "R ") {
+			if seen[string(st.Path)] {
+				tags = append(tags, "sequence:redirect-for-a-path-redirected-before")
+			}
+			seen[string(st.Path)] = true
 		}
 	}
-	if !strings.HasPrefix(path, "/") {
-		tags = append(tags, "path-not-rooted")
+	if len(steps) > 1 {
+		tags = append(tags, "sequence")
 	}
-	if c.ForceQuery && qs == "" {
-		tags = append(tags, "url:bare-question-mark")
-		if isRedirect {
-			tags = append(tags, "redirect:bare-question-mark")
-		}
-	}
-	if c.Fragment != "" {
-		tags = append(tags, "url:fragment")
-	}
-	if c.Host != "" {
-		tags = append(tags, "url:absolute-form(host)")
-	}
-	if raw != "" && raw == path {
-		tags = append(tags, "url:RawPath==Path")
+	ops, obs := "", strings.Join(append([]string{wInt(len(obss))}, obss...), " ")
+	if len(lines) > 0 {
+		ops = strings.Join(append([]string{"Q", wInt(len(lines))}, lines...), " ")
 	}
 	return Result{Ops: ops, Obs: obs, Oracle: oracle, Tags: tags, Nontrivial: nontrivial}
 }
@@ -618,7 +761,9 @@ var (
 		{"localhost", "localhost"}, {"a", "a"}, {"a/b", "a/b"}, {"a/f.txt", "a/f.txt"}, {"s", "s"}, {"g/s", "g/s"}, {"example.com/x.txt", "example.com/x.txt"}, {"evil.com/sub", "evil.com/sub"},
 		{"http:", "http:"}, {"javascript:alert(1)", "javascript:alert(1)"}, {"e", "e"}, {"", ""}}
 	c17Tails   = []c17Tok{{"", ""}, {"", ""}, {"/", "/"}, {"/..", "/.."}, {"/..", "/%2e%2e"}, {"/..", "/%2E."}, {"/.", "/."}, {"/x", "/x"}, {"//", "//"}, {"/", "%2f"}, {"?x", "%3fx"}, {"#f", "%23f"}, {"\t", "%09"}, {"%", "%25"}}
-	c17Queries = []string{"", "", "a=1", "next=//evil.com", "/\t/evil.com", "x=%2f%2f&y=2", "//evil.com", "?", "\\evil.com"}
+	c17Queries = []string{"", "", "", "a=1", "next=//evil.com", "/\t/evil.com", "x=%2f%2f&y=2", "//evil.com", "?", "\\evil.com",
+		// queries url.ParseQuery rejects or reads in surprising ways: they are to be copied, not parsed
+		"discount=100%", "%", "%zz", "a=%2", "a=1;b=2", ";", "=", "&&", "a=1&&b", "a=b=c", "q=first", "q=second", "+", "a[]=1&a[]=2", "\x00", "k=" + strings.Repeat("v", 300)}
 	c17Methods = []string{"HEAD", "POST", "POST", "PUT", "PATCH", "DELETE", "OPTIONS", "PROPFIND", "X-CUSTOM", "get"}
 	c17Codes   = []int{301, 301, 301, 302, 302, 307, 308, 308, 303, 300, 304, 305, 306, 0, 0, 0, 299, 309, 200, 1}
 )
@@ -853,7 +998,82 @@ func c17GenCase(r *rand.Rand) *c17Case {
 			c.RawPath = a2bstr("/" + strings.TrimSuffix(baseEnc, "/"))
 		}
 	}
+	// the protocol version the request names, and its Host header
+	st := c.step0()
+	c17GenConn(r, &st)
+	c.setStep0(st)
+	// further requests through the same application (the same middleware instances): the same
+	// path with another query, another path with the same query, an exact repeat
+	k := 8
+	if c.Comp == "add" || c.Comp == "remove" {
+		k = 4
+	}
+	if r.Intn(k) == 0 {
+		prev := c.step0()
+		for i, n := 0, 1+r.Intn(3); i < n; i++ {
+			nx := prev
+			switch r.Intn(6) {
+			case 0, 1: // same path, other query
+				nx.Query = a2bstr(c17Queries[r.Intn(len(c17Queries))])
+				nx.ForceQuery = false
+			case 2: // same path, no query
+				nx.Query, nx.ForceQuery = "", r.Intn(3) == 0
+			case 3: // other path, same query
+				alt := c17GenCase0(r, c)
+				nx.Path, nx.RawPath = alt.Path, alt.RawPath
+			case 4: // the first request again
+				nx = c.step0()
+			default: // exact repeat
+			}
+			if r.Intn(4) == 0 {
+				c17GenConn(r, &nx)
+			}
+			c.More = append(c.More, nx)
+			prev = nx
+		}
+	}
 	return c
+}
+
+// c17GenCase0: another request path for the same application
+func c17GenCase0(r *rand.Rand, c *c17Case) c17Step {
+	st := c.step0()
+	if c.Comp == "add" || c.Comp == "remove" {
+		for try := 0; try < 6; try++ {
+			d := c17GenCase(r)
+			if (d.Comp == "add" || d.Comp == "remove") && d.Path != c.Path {
+				st.Path, st.RawPath = d.Path, d.RawPath
+				return st
+			}
+		}
+		st.Path, st.RawPath = st.Path+"x", ""
+		return st
+	}
+	// a static route: stay below the mount point
+	tail := []string{"/", "/..", "/a", "/.", "/evil.com", "/../g"}[r.Intn(6)]
+	st.Path += a2bstr(tail)
+	if st.RawPath != "" {
+		st.RawPath += a2bstr(tail)
+	}
+	return st
+}
+
+func c17GenConn(r *rand.Rand, st *c17Step) {
+	st.Proto, st.NoHost, st.ReqHost, st.TLS = "", false, "", false
+	switch k := r.Intn(40); {
+	case k < 5:
+		st.Proto = "1.0"
+		st.NoHost = r.Intn(2) == 0 // HTTP/1.0 needs no Host header
+	case k < 7:
+		st.Proto = "2.0"
+	case k < 8:
+		st.Proto = "0.9"
+		st.NoHost = true
+	}
+	if !st.NoHost && r.Intn(10) == 0 {
+		st.ReqHost = []string{"evil.com", "example.com:8080", "[::1]:80", "a b"}[r.Intn(4)]
+	}
+	st.TLS = r.Intn(20) == 0
 }
 
 func c17Gen(r *rand.Rand, tier string) []any {
@@ -924,6 +1144,72 @@ func c17Shrink(ci any) []any {
 		d := *c
 		d.Query = ""
 		out = append(out, &d)
+	}
+	// sequences: drop a later request, let a later request take the place of the first one, make
+	// a later request plainer
+	for i := range c.More {
+		d := *c
+		d.More = append(append([]c17Step(nil), c.More[:i]...), c.More[i+1:]...)
+		out = append(out, &d)
+	}
+	if len(c.More) > 0 {
+		d := *c
+		d.setStep0(c.More[0])
+		d.More = append([]c17Step(nil), c.More[1:]...)
+		out = append(out, &d)
+	}
+	for i, st := range c.More {
+		set := func(ns c17Step) {
+			d := *c
+			d.More = append([]c17Step(nil), c.More...)
+			d.More[i] = ns
+			out = append(out, &d)
+		}
+		if st.Proto != "" || st.NoHost || st.ReqHost != "" || st.TLS || st.Fragment != "" || st.Host != "" || st.Method != "" {
+			ns := st
+			ns.Proto, ns.NoHost, ns.ReqHost, ns.TLS, ns.Fragment, ns.Host, ns.Method = "", false, "", false, "", "", ""
+			set(ns)
+		}
+		if st.RawPath != "" {
+			ns := st
+			ns.RawPath = ""
+			set(ns)
+		}
+		if len(st.Query) > 1 {
+			ns := st
+			ns.Query = st.Query[:len(st.Query)/2]
+			set(ns)
+			ns.Query = st.Query[:len(st.Query)-1]
+			set(ns)
+		}
+		if len(st.Path) > 2 {
+			ns := st
+			ns.Path = st.Path[:len(st.Path)-1]
+			set(ns)
+		}
+	}
+	if c.Proto != "" || c.NoHost || c.ReqHost != "" || c.TLS {
+		d := *c
+		d.Proto, d.NoHost, d.ReqHost, d.TLS = "", false, "", false
+		out = append(out, &d)
+		if c.TLS {
+			d2 := *c
+			d2.TLS = false
+			out = append(out, &d2)
+		}
+		if c.ReqHost != "" {
+			d2 := *c
+			d2.ReqHost = ""
+			out = append(out, &d2)
+		}
+	}
+	if len(c.Query) > 1 {
+		d := *c
+		d.Query = c.Query[:len(c.Query)/2]
+		out = append(out, &d)
+		d2 := *c
+		d2.Query = c.Query[:len(c.Query)-1]
+		out = append(out, &d2)
 	}
 	if c.Fragment != "" || c.Host != "" {
 		d := *c
@@ -1025,6 +1311,7 @@ func c17Mutate(r *rand.Rand, ci any) []any {
 	for _, p := range []string{"//example.com", "/\\example.com", "/\t/example.com", "/\\\n/example.com", "/\r\n//example.com", "///example.com/..", "//example.com/../.."} {
 		for _, q := range []string{string(c.Query), "", "next=1", "?"} {
 			d := *c
+			d.More = nil
 			d.Path, d.RawPath, d.Query = a2bstr(p), "", a2bstr(q)
 			d.ForceQuery = false
 			if q == "?" {
@@ -1081,7 +1368,7 @@ func c17Mutate(r *rand.Rand, ci any) []any {
 func init() {
 	register(&Prop{
 		ID:     "C17",
-		Rule:   "request URLs built from tokens: first char `/` (rarely `\\` or none), optional static route prefix, a leading mix of 0-4 of {/, \\, %2f, %5c, TAB, CR, LF (raw or escaped), other C0 controls, space, DEL, NBSP}, a host-like or tree segment, `..` climbs (plain/escaped) back to a directory for the static components, tails, +/- query; URL.Path/RawPath as a real server would set them when the target parses, set directly otherwise; x {AddTrailingSlash, RemoveTrailingSlash (RedirectCode 300..308, 0 = forward, invalid codes; 1 in 10 built with the constructor without config, 1 in 10 with a Skipper: nil-equivalent DefaultSkipper / always / paths containing 'example'), Echo.Static, Group.Static over two real directory trees} x request method (GET for half of the slash cases and 4/5 of the static cases, else HEAD/POST/PUT/PATCH/DELETE/OPTIONS/PROPFIND/X-CUSTOM/lower-case get; the model ignores the method); static routes: mount point below a literal prefix, the root, or a PATH PARAMETER (`/:site/`, `/:site/assets`, `/:a/:b/`, groups `/:site`, `/g/:site`: the parameter segments filled with {acme, \\example.com, %5Cexample.com, %2Fexample.com, %09%5Cexample.com, empty, ...}), half of them registered through another entry point (Static with a relative root, StaticFS with os.DirFS / MustSubFS / fstest.MapFS, GET or Add with StaticDirectoryHandler with and without path unescaping), 1 in 8 with a slash middleware under e.Pre in front of the route (mostly forwarding); one case in eight is a plain path for the 'ordinary paths' clause; URL parts that are present but empty: a quarter of the query-less targets end in a bare `?` (URL.ForceQuery), 1 in 15 RawPath == Path, 1 in 25 a fragment, 1 in 25 an absolute-form target (URL.Host); 1 static case in 12 asks for the mount point itself without its slash; plus, exhaustively, every string of length 1-4 over {/, \\, TAB, LF, e} starting with / or \\ through both slash middlewares without query, with query and with a bare `?` (1872 cases). non-trivial = a redirect was produced and the unsanitised target (path±/ + query) would be read by a browser as an authority (another host); distinct = distinct model op lines",
+		Rule:   "request URLs built from tokens: first char `/` (rarely `\\` or none), optional static route prefix, a leading mix of 0-4 of {/, \\, %2f, %5c, TAB, CR, LF (raw or escaped), other C0 controls, space, DEL, NBSP}, a host-like or tree segment, `..` climbs (plain/escaped) back to a directory for the static components, tails, +/- query; URL.Path/RawPath as a real server would set them when the target parses, set directly otherwise; x {AddTrailingSlash, RemoveTrailingSlash (RedirectCode 300..308, 0 = forward, invalid codes; 1 in 10 built with the constructor without config, 1 in 10 with a Skipper: nil-equivalent DefaultSkipper / always / paths containing 'example'), Echo.Static, Group.Static over two real directory trees} x request method (GET for half of the slash cases and 4/5 of the static cases, else HEAD/POST/PUT/PATCH/DELETE/OPTIONS/PROPFIND/X-CUSTOM/lower-case get; the model ignores the method); static routes: mount point below a literal prefix, the root, or a PATH PARAMETER (`/:site/`, `/:site/assets`, `/:a/:b/`, groups `/:site`, `/g/:site`: the parameter segments filled with {acme, \\example.com, %5Cexample.com, %2Fexample.com, %09%5Cexample.com, empty, ...}), half of them registered through another entry point (Static with a relative root, StaticFS with os.DirFS / MustSubFS / fstest.MapFS, GET or Add with StaticDirectoryHandler with and without path unescaping), 1 in 8 with a slash middleware under e.Pre in front of the route (mostly forwarding); one case in eight is a plain path for the 'ordinary paths' clause; queries include ones url.ParseQuery rejects (`discount=100%`, `%zz`, `a=1;b=2`, `;`, `=`, `&&`, NUL, 300 bytes); 1 request in 5 names another protocol version (HTTP/1.0 - half of them without Host header -, HTTP/2.0, HTTP/0.9), 1 in 10 of the others another Host header, 1 in 20 came over TLS; a quarter of the slash cases and an eighth of the static cases are SEQUENCES of 2-4 requests through one application (the same path with another query / without query, another path with the same query, exact repeats), each request judged on its own; URL parts that are present but empty: a quarter of the query-less targets end in a bare `?` (URL.ForceQuery), 1 in 15 RawPath == Path, 1 in 25 a fragment, 1 in 25 an absolute-form target (URL.Host); 1 static case in 12 asks for the mount point itself without its slash; plus, exhaustively, every string of length 1-4 over {/, \\, TAB, LF, e} starting with / or \\ through both slash middlewares without query, with query and with a bare `?` (1872 cases). non-trivial = a redirect was produced and the unsanitised target (path±/ + query) would be read by a browser as an authority (another host); distinct = distinct model op lines",
 		New:    func() any { return &c17Case{} },
 		Gen:    c17Gen,
 		Run:    c17Run,
@@ -1092,6 +1379,6 @@ func init() {
 			c17Cleanup()
 			return nil
 		},
-		Correspondence: "C17.runReq = C17.slashMw (the four slash constructors + Skipper) / C17.staticHandler (StaticDirectoryHandler with and without unescaping) / their composition under e.Pre, C17.sanitizeURI and the spec predicate C17.sameHost (lean/EchoModel/C17.lean) vs middleware.AddTrailingSlash / RemoveTrailingSlash (+WithConfig), Echo.Static / Echo.StaticFS / Group.Static / Group.StaticFS / echo.StaticDirectoryHandler at literal, root and path-parameter mount points, and the harness' WHATWG reading of Location",
+		Correspondence: "C17.runSeq (requests one after the other through one application) over C17.runReq = C17.slashMw (the four slash constructors + Skipper) / C17.staticHandler (StaticDirectoryHandler with and without unescaping) / their composition under e.Pre, C17.sanitizeURI and the spec predicate C17.sameHost (lean/EchoModel/C17.lean) vs middleware.AddTrailingSlash / RemoveTrailingSlash (+WithConfig), Echo.Static / Echo.StaticFS / Group.Static / Group.StaticFS / echo.StaticDirectoryHandler at literal, root and path-parameter mount points, and the harness' WHATWG reading of Location",
 	})
 }
